@@ -539,6 +539,7 @@ def make_unique_inv(holder):
 
 class _UniqueDF(_DF):
     prop = "C02"
+    also = ("C04",)                     # grouping keeps the first row of every key through unique
     names = ("k1",)
     holder = None
 
@@ -1900,6 +1901,7 @@ class _SortDF(_DF):
 @register
 class SortDFAsc(_SortDF):
     variant, dirs = "one key ascending", (1,)
+    also = ("C01", "C04", "C06")        # grouping sorts ascending by the group columns and relies on order + stability
 
 
 @register
@@ -1910,6 +1912,7 @@ class SortDFDesc(_SortDF):
 @register
 class SortDFAscAsc(_SortDF):
     variant, dirs = "two keys asc,asc", (1, 1)
+    also = ("C01", "C04", "C06")
 
 
 @register
